@@ -66,8 +66,8 @@ CHECKS = {
          "Padding model from the documentation; external protocol crates trusted.",
          "DESIGN.md section 4 C14"),
  "C15": ("model_checking", "explicit-state search of all insertion sequences on the real SpanningTree (two engines, counts must agree) and BFS over the real SQLite wallet with light-client steps",
-         "(a) every insertion sequence up to length 3 (quick) / 4 (thorough) over all ranges, priorities and the force flag, state = full tree shape, oracle = pointwise dominance table; (b) wallet state graph with client steps on suggested ranges, tips and rewinds: queue structure, Scanned iff scanned, strict progress of every client step, nothing suggested => fully scanned.",
-         "Free scans of non-suggested ranges are outside the property's quantifier.",
+         "(a) every insertion sequence up to length 3 (quick) / 4 (thorough) over all ranges, priorities and the force flag, state = full tree shape, oracle = pointwise dominance table; (b) wallet state graph with client steps on suggested ranges, subtree-root insertion, tips and rewinds: queue structure, Scanned iff scanned, after every operation the queue equals height by height the documented insertions of that operation applied through the dominance table to the queue before it, strict progress of every client step, nothing suggested => fully scanned.",
+         "Free scans of non-suggested ranges are outside the property's quantifier; which heights scan_complete raises to FoundNote is not modelled (accepted where the dominance rule yields FoundNote).",
          "DESIGN.md section 4 C15"),
  "C16": ("exploration", "exhaustive boundary-balance x cap x buffer x fee x oracle-alphabet enumeration against an independent canonical split",
          "Every balance within +-2 of every boundary expression of up to 3 quanta x note counts x caps x buffers x fees x nine preparation-cost oracles (incl. refusing, over-charging, stateful, usize::MAX) is planned twice with different RNGs and checked for canonicity, prefix of the reference split, exact conservation, residual bound and RNG independence.",
